@@ -655,6 +655,49 @@ class _ParityEval(TypeEval):
         return super().ev(f, e, env)
 
 
+LAZY_MEMBERS = (
+    # (class, public member, slot, the method whose result the obligations are proved for)
+    ("Matrix", "transpose", "_transpose", "_construct_transpose"),
+    ("ImplicitArrayMatrix", "array", "_array", "_construct_array"),
+    ("InvertibleMatrix", "inv", "_inv", "_construct_inv"),
+    ("PositiveDefiniteMatrix", "sqrt", "_sqrt", "_construct_sqrt"),
+)
+
+
+def rule_lazy_members(rep, program: Program, prop=PROP, rule="R9", only=None):
+    """The algebraic obligations are decided for the _construct_* methods; the public lazily filled
+    members must deliver exactly those values: the slot is filled only with self._construct_*() and
+    the member returns the slot."""
+    r = rep.rule(rule, "lazily filled members (T, array, inv, sqrt) fill their slot only with the result of the class's own _construct_* method and return the slot", floor=len([x for x in LAZY_MEMBERS if only is None or x[1] in only]))
+    for cls, member, slot, ctor in LAZY_MEMBERS:
+        if only is not None and member not in only:
+            continue
+        k = program.cls(cls)
+        f = k.methods.get(member)
+        if f is None:
+            raise AnalysisError(f"{cls}.{member} not found")
+        stores = [n for n in ast.walk(f.node) if isinstance(n, ast.Assign) and any(norm(t) == f"self.{slot}" for t in n.targets)]
+        rets = [n for n in ast.walk(f.node) if isinstance(n, ast.Return) and n.value is not None]
+        r.inst({"member": f"{cls}.{member}", "slot stores": [norm(n.value)[:50] for n in stores], "returns": [norm(n.value)[:40] for n in rets]})
+        if not stores:
+            raise AnalysisError(f"{cls}.{member}: no store to self.{slot}")
+        for n in stores:
+            if norm(n.value) != f"self.{ctor}()":
+                r.violate(prop, f"{cls}.{member}:slot-source:{norm(n.value)[:50]}", f"{cls}.{member} fills self.{slot} with `{norm(n.value)[:60]}` instead of self.{ctor}(): the value is not the one whose defining identity is established for the class (e.g. a factor taken from another object's cache needs the transpose / inverse conventions of that object, not of this one)", node=n, file=f.file)
+        for n in rets:
+            if norm(n.value) != f"self.{slot}":
+                r.violate(prop, f"{cls}.{member}:returns:{norm(n.value)[:40]}", f"{cls}.{member} returns `{norm(n.value)[:50]}`, not the slot it fills", node=n, file=f.file)
+        # overriding classes must not replace the member (their _construct_* is what is analysed)
+        for sub in program.subclasses(cls):
+            if sub is not k and member in sub.methods and sub.methods[member] is not f:
+                g = sub.methods[member]
+                st2 = [n for n in ast.walk(g.node) if isinstance(n, ast.Assign) and any(norm(t) == f"self.{slot}" for t in n.targets)]
+                for n in st2:
+                    if norm(n.value) != f"self.{ctor}()":
+                        r.violate(prop, f"{sub.name}.{member}:slot-source:{norm(n.value)[:50]}", f"{sub.name}.{member} overrides the lazily filled member and fills self.{slot} with `{norm(n.value)[:60]}`", node=n, file=g.file)
+    return r
+
+
 def run(rep, program: Program, tier: str) -> None:
     rep.explanation = (
         "Symbolic evaluation of the members of 17 matrix classes in an exact non-commutative "
@@ -672,3 +715,4 @@ def run(rep, program: Program, tier: str) -> None:
     rep.isolate(rule_lu_typestate, rep, program)
     rep.isolate(rule_parity, rep, program)
     rep.isolate(c08.rule_r4, rep, program, prop=PROP, rule="R6")
+    rep.isolate(rule_lazy_members, rep, program)
